@@ -19,6 +19,18 @@ CHECKS = {
  "C07": (MC, "tau,kappa>0 and 0<alpha<=1 on every LoopTop/AddStep event of every trace; strict interiority via observer margins; budget independence "
              "as a two-run refinement on iterate digests.", "5/C07", IPM_NOTE,
          "TLA+ model checking (TLC) + trace validation of hooked solves against Trace_IPM"),
+ "C04": (MC, "Liveness <>(pc=Done) under weak fairness and IterBound proved by TLC on MC_IPM for every cone class and max_iter<=3; degenerate shapes "
+             "(empty/singleton cones, zero data, 1e+-12 magnitudes, max_iter 0..200, time_limit 0) enumerated under catch_unwind + watchdog and every trace validated "
+             "(terminal status, iterations<=max_iter, MaxTime decided from the logged clock reading); constructor dimension guard validated by Construct.tla; "
+             "MaxTime mid-run via injected sleeps.", "5/C04", IPM_NOTE,
+         "TLA+ model checking incl. liveness (TLC) + trace validation of enumerated degenerate solves"),
+ "C06": ("exploration", "Per-pass mechanism relations (sigma=(1-alpha_aff)^3, first-iteration damping) checked by TLC on every trace of family G; the distributional claim "
+             "(>=99.5% Solved, p95 iteration envelope) is a POSTCONDITION of Dist.tla over counters with a binomial false-alarm bound of 1e-9.",
+         "5/C06", IPM_NOTE + " The iteration envelope (30 / 20 symmetric) is empirical.", "trace validation against Trace_IPM + TLC postcondition over run counters (Dist.tla)"),
+ "C20": (MC, "PrintShape and LastRowMatches proved on MC_IPM for all control paths; MC_Print checks target switching; on traces TLC checks the printed rows equal the "
+             "model's emission sequence, footer = status, identical bytes on buffer/stream/file, silence when verbose is off, configuration header = internal problem facts, "
+             "last row = returned solution to print precision.", "5/C20", IPM_NOTE,
+         "TLA+ model checking (TLC) + trace validation of captured output against Print.tla / Trace_IPM"),
 }
 NOT_APPLICABLE = [
  {"property_id": "C13", "reason": "Nesterov-Todd identities are real-analytic identities (square roots, matrix square roots) with no state, history or index structure for a TLA+ model to carry; TLC has no real arithmetic. The structural clause (KKT block = operator used for slack recovery) is decided under C11."},
